@@ -377,6 +377,133 @@ var ruleLowerCase = &core.Rule{ID: "R12.3", Min: 4,
 		}
 	}}
 
+// firstStageWins: call is the first thing f does (entry block, no call before
+// it) and on every path on which call returned a non-empty string no other
+// call runs and f returns that string. Paths are followed with the string
+// phis resolved by the edge taken; a test of the (resolved) result against ""
+// is decided by the assumption, any other test goes both ways.
+func firstStageWins(f *ssa.Function, call *ssa.Call) bool {
+	if call.Block() != f.Blocks[0] {
+		return false
+	}
+	isRealCall := func(in ssa.Instruction) bool {
+		ci, ok := in.(ssa.CallInstruction)
+		if !ok {
+			return false
+		}
+		if _, b := ci.Common().Value.(*ssa.Builtin); b {
+			return false
+		}
+		return true
+	}
+	idx := -1
+	for i, in := range call.Block().Instrs {
+		if in == ssa.Instruction(call) {
+			idx = i
+			break
+		}
+		if isRealCall(in) {
+			return false
+		}
+	}
+	if idx < 0 {
+		return false
+	}
+	type env map[*ssa.Phi]ssa.Value
+	resolve := func(e env, v ssa.Value) ssa.Value {
+		for k := 0; k < 8; k++ {
+			ph, ok := v.(*ssa.Phi)
+			if !ok {
+				return v
+			}
+			r, known := e[ph]
+			if !known {
+				return v
+			}
+			v = r
+		}
+		return v
+	}
+	seen := map[string]bool{}
+	ok := true
+	var walk func(prev, b *ssa.BasicBlock, from int, e env)
+	walk = func(prev, b *ssa.BasicBlock, from int, e env) {
+		if !ok {
+			return
+		}
+		if prev != nil {
+			ne := env{}
+			for k, v := range e {
+				ne[k] = v
+			}
+			for _, in := range b.Instrs {
+				ph, isPhi := in.(*ssa.Phi)
+				if !isPhi {
+					break
+				}
+				for i, p := range b.Preds {
+					if p == prev {
+						ne[ph] = resolve(e, ph.Edges[i])
+					}
+				}
+			}
+			e = ne
+		}
+		key := fmt.Sprint(b.Index, "|")
+		for _, in := range b.Instrs {
+			if ph, isPhi := in.(*ssa.Phi); isPhi {
+				if v, known := e[ph]; known {
+					key += ph.Name() + "=" + v.Name() + ";"
+				}
+			}
+		}
+		if prev != nil {
+			if seen[key] {
+				return
+			}
+			seen[key] = true
+		}
+		for i := from; i < len(b.Instrs); i++ {
+			in := b.Instrs[i]
+			if isRealCall(in) {
+				ok = false // another stage runs although the first one answered
+				return
+			}
+			switch t := in.(type) {
+			case *ssa.Return:
+				if resolve(e, t.Results[0]) != ssa.Value(call) {
+					ok = false
+				}
+				return
+			case *ssa.If:
+				cond, pos := core.StripNot(t.Cond, true)
+				if bo, isBo := cond.(*ssa.BinOp); isBo && (bo.Op == token.EQL || bo.Op == token.NEQ) {
+					if k, isK := core.ConstString(bo.Y); isK && k == "" && resolve(e, bo.X) == ssa.Value(call) {
+						// call != "" on this path
+						truth := bo.Op == token.NEQ
+						if truth == pos {
+							walk(b, b.Succs[0], 0, e)
+						} else {
+							walk(b, b.Succs[1], 0, e)
+						}
+						return
+					}
+				}
+				walk(b, b.Succs[0], 0, e)
+				walk(b, b.Succs[1], 0, e)
+				return
+			case *ssa.Jump:
+				walk(b, b.Succs[0], 0, e)
+				return
+			case *ssa.Panic:
+				return
+			}
+		}
+	}
+	walk(nil, call.Block(), idx+1, env{})
+	return ok
+}
+
 // R12.4 + R12.5 + R12.6
 var ruleHTMLOrder = &core.Rule{ID: "R12.4", Min: 3,
 	Doc: "HTML sniffer: the BOM lookup on the unmodified input comes first and its non-empty result is returned; the meta prescan runs only after it; a utf-16* label from a meta maps to utf-8; the pragma decision after the attribute loop (inline, or in a per-tag helper whose accepted label the caller returns) equals the WHATWG table (charset attribute: accept; content attribute: accept iff http-equiv=content-type was seen; none: skip)",
@@ -438,6 +565,10 @@ var ruleHTMLOrder = &core.Rule{ID: "R12.4", Min: 3,
 						}
 					}
 				}
+			}
+			if !(first && retOK) && firstStageWins(f, bomCall) {
+				// single-exit spelling: the result variable is filled by the first stage that finds something
+				first, retOK = true, true
 			}
 			s.Check(first && retOK, "BOM before meta prescan", c.Pos(bomCall.Pos()), "BOM lookup dominates the prescan; non-empty name returned unchanged", "the meta prescan can run although a byte-order mark is present, or the BOM name is not what is returned")
 		}
